@@ -1422,6 +1422,28 @@ def r_audit(ctx):
                 for e, p in facts(r, rbh.node)) or any(
         (ap(x) or "").endswith(".is_alive") for g in walk(rbh.node) if isinstance(g, (ast.GeneratorExp, ast.ListComp))
         for gen in g.generators for i in gen.ifs for x in ast.walk(i))
+    if not alive:
+        # finder helper with a predicate: `self._find(lambda r: r.handle == h and r.is_alive)`; the finder must return
+        # only elements its predicate accepted, the lambda body supplies the fact
+        for c in calls(rbh.node):
+            if not (isinstance(c.func, ast.Attribute) and isinstance(c.func.value, ast.Name) and rbh.cls is not None):
+                continue
+            h = repo.lookup_method(rbh.cls, c.func.attr)
+            lams = [a_ for a_ in list(c.args) + [k.value for k in c.keywords] if isinstance(a_, ast.Lambda)]
+            if h is None or not lams:
+                continue
+            params = [p_.arg for p_ in h.node.args.posonlyargs + h.node.args.args][1:]
+            bound = dict(zip(params, c.args))
+            bound.update({k.arg: k.value for k in c.keywords if k.arg})
+            for pname, lam in [(pn, v) for pn, v in bound.items() if isinstance(v, ast.Lambda)]:
+                rets = [r for r in walk(h.node) if isinstance(r, ast.Return) and r.value is not None
+                        and not (isinstance(r.value, ast.Constant) and r.value.value is None)]
+                accepted_only = bool(rets) and all(
+                    any(p_ and isinstance(e, ast.Call) and isinstance(e.func, ast.Name) and e.func.id == pname
+                        and e.args and ap(e.args[0]) == ap(r.value) for e, p_ in facts(r, h.node)) for r in rets)
+                live = any(p_ and (ap(e) or "").endswith(".is_alive") for e, p_ in atoms(lam.body, True))
+                if accepted_only and live:
+                    alive = True
     ctx.ob("C14.R8", "BaseClientSession.region_by_handle prefers a live region over a dead one with the same handle", alive,
            rbh.where, "dead regions stay in session.regions; the first region with the handle is returned dead or alive, so "
                       "after a region restart track_region_objects registers the dead region's object manager")
